@@ -57,7 +57,7 @@ def features(env, root, lay=None):
 # (property, check kind) -> features that explain a failure of that kind
 EXPLAINS = {
     ("C03", "compat"): {"cpp-optional-of-struct-with-limited-array"},
-    ("C05", "gbs"): {"cpp-optional-of-struct-with-limited-array"},
+    ("C07", "memsafe"): {"cpp-optional-of-struct-with-limited-array"},
 }
 
 
@@ -66,6 +66,9 @@ def match(pid, fail):
     if pid in ("C07",) and "which is not a valid value for type 'enum" in what and "runtime error: load of value" in what:
         # UBSan -fsanitize=enum at the switch over a decoded enum/discriminator
         return "cpp-enum-load-out-of-range"
+    if pid == "C09" and fail.get("check") == "swap" and fail.get("returned_rounded_to_struct_alignment") \
+            and "swap returned offset" in what:
+        return "raw-swap-greedy-return-rounded"
     feats = set(fail.get("features") or ())
     for f in sorted(EXPLAINS.get((pid, fail.get("check")), set()) & feats):
         return f
